@@ -50,7 +50,7 @@ def get_failure_reply(results):
 
     :param results: The list returned by :meth:`Edge.handoff`.
     :returns: ``None`` if every envelope was queued, otherwise the |Reply| of
-              the first failure.
+              the first failure. This is always a ``4xx`` or ``5xx`` reply.
 
     """
     default_reply = Reply('451', '4.3.0 Error queuing message')
@@ -58,7 +58,10 @@ def get_failure_reply(results):
         return default_reply
     for _, result in results:
         if isinstance(result, (QueueError, RelayError)):
-            return getattr(result, 'reply', None) or default_reply
+            reply = getattr(result, 'reply', None)
+            if reply is not None and reply.code and reply.is_error():
+                return reply
+            return default_reply
     return None
 
 
